@@ -74,6 +74,14 @@ def notation_chunk(args):
                 out['viol'].append(({'notation': n.label, 'kind': 'render_raises'}, f'{n.label}{t}: pretty raised {type(ex).__name__}: {ex}'))
                 s = None
             apps.append((t, bridge.expand(a), s))
+        if n.arity == 2:
+            # the notation nested in itself, to the left and to the right (brackets must keep the tree shapes apart)
+            for x, y, z in itertools.permutations(pl[:3], 3):
+                for a in (n(n(x, y), z), n(x, n(y, z)), n(n(x, y), n(z, x))):
+                    try:
+                        apps.append((('nested', str(a)), bridge.expand(a), a.pretty(opts)))
+                    except Exception as ex:  # noqa: BLE001
+                        out['viol'].append(({'notation': n.label, 'kind': 'render_raises'}, f'{n.label} nested in itself: pretty raised {type(ex).__name__}: {ex}'))
         # the same applications reached through instantiation (a rebuilt argument map must still print its
         # arguments in the notation's positions)
         P = bridge.P
@@ -92,7 +100,8 @@ def notation_chunk(args):
             if e1 != e2:
                 out['distinct_pairs'] += 1
                 if s1 is not None and s1 == s2:
-                    out['viol'].append(({'notation': n.label, 'kind': 'same_rendering'},
+                    nested = (t1 and t1[0] == 'nested') or (t2 and t2[0] == 'nested')
+                    out['viol'].append(({'notation': n.label, 'kind': 'same_rendering_nested_in_itself' if nested else 'same_rendering'},
                                         f'{n.label} applied to {[rend[i] if isinstance(i, int) else i for i in t1]} and to {[rend[i] if isinstance(i, int) else i for i in t2]} denote different patterns but both print as {s1!r}'))
                     break
     return out
